@@ -687,3 +687,54 @@ Section Contract3.
     apply sample_loop_ok in E. destruct E as [rest [P L]]. split; [exists rest; exact P|exact L].
   Qed.
 End Contract3.
+
+Section Contract4.
+  Variable R : Type.
+  Variable r_unit : R -> Z * R.
+  Variable r_below : Z -> R -> Z * R.
+  Variable r_seed : Z -> R.
+  Hypothesis unit_range : forall g, 0 <= fst (r_unit g) < two53.
+  Hypothesis below_range : forall n g, 0 < n -> 0 <= fst (r_below n g) < n.
+
+  (* the first len(values) outputs of a new or reset PShuffle are a permutation of the values *)
+  Lemma pshuffle_first_block values repeats s : values <> [] ->
+    exists vals', Permutation vals' values /\
+      run R r_seed (pshuffle R r_below values repeats) (fresh R r_seed (pshuffle R r_below values repeats) s)
+          (repeat Next (length values)) = map (fun v => Out (OZ v)) vals'.
+  Proof.
+    intro Hne. destruct values as [|a t]; [contradiction|].
+    pose proof (shuffle_perm R r_unit r_below r_seed unit_range below_range (a :: t) (r_seed s)) as P.
+    destruct (shuffle R r_below (a :: t) (r_seed s)) as [vals' g1] eqn:Sh. cbn [fst] in P.
+    exists vals'. split; [exact P|].
+    pose proof (Permutation_length P) as L. cbn [length] in L.
+    cbn [length repeat]. rewrite run_cons. unfold fresh. cbn [do_op i_st i_gen i_seed m_step m_init pshuffle].
+    unfold pshuffle_step. cbn [sh_vals sh_pos sh_rcount]. change (0 =? 0) with true. cbv iota. rewrite Sh.
+    destruct vals' as [|v0 rest]; [discriminate|]. cbn [length] in L.
+    replace (zlen (v0 :: rest) <=? 0) with false by (unfold zlen; cbn [length]; lia).
+    change (pyidx (v0 :: rest) 0) with (if (0 <=? 0) && (0 <? zlen (v0 :: rest)) then Some v0 else
+       if (- zlen (v0 :: rest) <=? 0) && (0 <? 0) then nth_error (v0 :: rest) (Z.to_nat (0 + zlen (v0 :: rest))) else None).
+    replace ((0 <=? 0) && (0 <? zlen (v0 :: rest))) with true by (unfold zlen; cbn [length]; lia).
+    cbn [fst snd]. rewrite (pshuffle_block_from R r_unit r_below r_seed unit_range below_range) by (unfold zlen; cbn [length]; lia).
+    change (Z.to_nat (0 + 1)) with 1%nat. cbn [skipn map]. f_equal.
+    rewrite firstn_all2 by lia. reflexivity.
+  Qed.
+
+End Contract4.
+
+(** ** Stateless machines (PCoin, PChoice, PSample): seed(s) alone rewinds *)
+Lemma reseed_rewinds_stateless R (r_seed : Z -> R) (m : machine R unit) i pre s post :
+  run R r_seed m i (pre ++ Seed s :: post) = run R r_seed m i pre ++ run R r_seed m (fresh R r_seed m s) post.
+Proof.
+  rewrite run_app, run_cons. cbn [do_op fst snd]. unfold fresh.
+  destruct (i_st (after R r_seed m i pre)). destruct (m_init m). reflexivity.
+Qed.
+
+(** ** The replay generator of the correspondence check respects the contract (so the contract is satisfiable) *)
+Lemma replay_contract :
+  (forall g, 0 <= fst (rp_unit g) < two53) /\ (forall n g, 0 < n -> 0 <= fst (rp_below n g) < n).
+Proof.
+  split.
+  - intro g. unfold rp_unit. destruct (rp_rest g); cbn [fst]; [unfold two53; lia|].
+    apply Z.mod_pos_bound. unfold two53. lia.
+  - intros n g Hn. unfold rp_below. destruct (rp_rest g); cbn [fst]; [lia|]. apply Z.mod_pos_bound. exact Hn.
+Qed.
